@@ -74,6 +74,15 @@ def check_midrun(case, stats):
             for _k in range(case["steps"]):
                 s.step()
         except InstructionExecutionException:
+            # the first program faulted.  If the simulation still says it has NOT started, the reload claim applies to
+            # it: loading the second text must give exactly what a fresh simulation gives
+            if not s.has_started:
+                e1 = _load(s, case["second"])
+                f = _new(cfg)
+                e2 = _load(f, case["second"])
+                if (e1 is None) != (e2 is None) or _snap(s, cfg) != _snap(f, cfg):
+                    raise Violation("reload-differs-from-fresh-load", case, f"a simulation whose only step failed reports has_started=False, yet after loading "
+                                    f"the next program it differs from a fresh one in {snap.diff_keys(_snap(s, cfg), _snap(f, cfg))}")
             stats.count(case, False, {"midrun", "first-program-faults"})
             return
         err = _load(s, case["second"])
@@ -302,7 +311,10 @@ def midrun_case(draw):
         cfg = {"kind": kind, "dcache": draw(cachecfg.maybe(cachecfg.small_cache_config())), "icache": draw(cachecfg.maybe(cachecfg.small_cache_config()))}
         good, broken = rv_program_text(), BROKEN_RV
     second = draw(st.one_of(good, st.sampled_from(EMPTY), st.sampled_from(EMPTY), st.sampled_from(broken)))
-    return {"kind": "midrun", "sim": cfg, "first": draw(good), "steps": draw(st.integers(1, 8)), "second": second, "bound": draw(st.sampled_from([60, 300]))}
+    first = draw(good)
+    if kind != "toy" and draw(st.integers(0, 4)) == 0:
+        first = draw(st.sampled_from(["lw x1, 0(x0)\nnop\n", "nop\nsw x1, 4(x0)\n", "addi a7, x0, 77\necall\nnop\n", "lb x1, -1(x0)\n"]))   # fails in its first steps
+    return {"kind": "midrun", "sim": cfg, "first": first, "steps": draw(st.integers(1, 8)), "second": second, "bound": draw(st.sampled_from([60, 300]))}
 
 
 def corpus():
